@@ -38,7 +38,7 @@ def _row_classified(inp, row):
 
 
 def check(run):
-    run.deductive(PC.MODULES)
+    PC.deductive(run)
     c07_native.data_and_bounded(run)
     pairs, _ = PC.bounded_rows(run, "solved-rows-balanced", lambda i, r: None)
     fails = []
